@@ -128,6 +128,7 @@ func runC15(c *core.Ctx) {
 	roots := []*ssa.Function{c.P.Fn("pwr", "DiffContext.WritePatch"), c.P.Fn("pwr/rediff", "NewContext"), c.P.Fn("pwr/rediff", "context.Optimize"), c.P.Fn("bsdiff", "DiffContext.Do")}
 	reach := reachableModuleFuncs(c.P, roots)
 	c.Stats["R15.reachable_functions"] = len(reach)
+	ruleCopyWritesWhatItRead(c, "R01.6")
 	ruleMapOrder(c, "R15.2", reach, 1)
 	ruleAmbient(c, "R15.4", reach, 2)
 }
